@@ -139,6 +139,10 @@ def train_case(case):
             if any((np.argsort(o) != o).any() for o in orders):
                 state["noninv"] = 1
 
+    if data_id == 1 and not decorated and bs in (3, None):
+        # history: the object was already fitted on other data (other n) before the monitored fit
+        model.fit(seams.tiny_data(n + 2, d, seed + 9))
+        del spy.log[:]
     with seams.optimiser_spy(cb):
         if use_path:
             import warnings
